@@ -748,7 +748,14 @@ class CParser:
         if self._peek_type() == "LBRACE" or self._starts_declaration():
             param_decls = None
             if self._starts_declaration():
+                # Old-style parameter declarations declare the parameters,
+                # whose scope is the function body (_declare_parameter_names
+                # enters them there) - not the scope the definition appears in.
+                scope = self._scope_stack[-1]
+                enclosing = dict(scope)
                 param_decls = self._parse_declaration_list()
+                scope.clear()
+                scope.update(enclosing)
             if self._peek_type() != "LBRACE":
                 self._parse_error("Invalid function definition", decl.coord)
             self._declare_parameter_names(decl)
